@@ -31,7 +31,7 @@ EXPLANATION = ("The model of the precession routines regenerated from /repo is e
 CLAUSES = {
     "precession is a rotation of the unit vector (equatorial, FK5): Rz(z).Ry(-theta).Rz(zeta), all declinations incl. poles, all epochs":
         "proved [ideal, C06_equ_closed_form + C06_equ_rotation]",
-    "zero interval is the identity (equatorial, ecliptical, Newcomb)": "proved [ideal, C06_*_identity]; binary64 residual searched (1e-9 / 1e-6 deg)",
+    "zero interval is the identity (equatorial, ecliptical, Newcomb)": "proved [ideal, C06_*_identity]; binary64 residual searched at 1e-9 deg for all three (measured 5e-14 deg)",
     "angle between any two stars unchanged": "proved exactly [ideal, C06_equ_isometry, C06_ecl_isometry, C06_rotation_facts]; binary64 1e-9 deg searched",
     "invertible (an inverse rotation exists); unit vectors stay unit vectors": "proved [ideal/spec, C06_rotation_facts]",
     "proper motion displaces the result linearly in elapsed time (it enters as start + 100*mu*t, the argument of the rotation)":
@@ -40,11 +40,11 @@ CLAUSES = {
     "Newcomb (FK4) variant: same rotation type with Newcomb's polynomials, total (no exception)": "proved [ideal, C06_newcomb_closed_form + C06_newcomb_rotation]",
     "mean obliquity = 23d26'21.448'' + Laskar polynomial": "proved [ideal, C06_obliquity]",
     "there and back returns the start (equatorial 1e-9 deg, ecliptical 1e-6 deg within 5 centuries of J2000)":
-        "proved [ideal]: equatorial EXACTLY the start for all epochs and declinations (C06_equ_there_and_back: the reverse-trip polynomials zeta(T+t,-t), z(T+t,-t), theta(T+t,-t) are the exact negatives -z, -zeta, -theta, so the property's 1e-9 deg is purely a binary64 rounding budget; measured 9e-14 deg); ecliptical within a chord of 6e-9 = 3.44e-7 deg < 1e-6 deg for both epochs within 5 centuries of J2000 (C06_ecl_there_and_back: mismatch polynomials bounded by interval, commutator bound 2|eta'||dPi| + |eta'+eta|, chord <= arc); binary64 rounding of both: searched with the property's tolerances",
+        "proved [ideal]: equatorial EXACTLY the start for all epochs and declinations (C06_equ_there_and_back: the reverse-trip polynomials zeta(T+t,-t), z(T+t,-t), theta(T+t,-t) are the exact negatives -z, -zeta, -theta, so the property's 1e-9 deg is purely a binary64 rounding budget; measured 9e-14 deg); ecliptical within a chord of 6e-9 = 3.44e-7 deg < 1e-6 deg for both epochs within 5 centuries of J2000 (C06_ecl_there_and_back: mismatch polynomials bounded by interval, commutator bound 2|eta'||dPi| + |eta'+eta|, chord <= arc); binary64 rounding of both: searched with the property's tolerances; the oracle tests the equatorial pair over +-20 centuries at 1e-9 deg and the ecliptical pair within 5 centuries at 1e-6 deg; Newcomb is not tested there and back: the text does not claim it and Newcomb's polynomials are not an inverse pair (zeta_N(T+t,-t) + z_N(T,t) = 0.001 t^2 (t - 1) arcsec exactly, i.e. 0.018 arcsec = 5e-6 deg at t = 3 centuries; measured residual 4.5e-6 deg within 1800-2100), so a 1e-9 deg check would fail by construction",
     "equatorial route agrees with the ecliptical route through the mean obliquity of each epoch to 1e-4 deg":
         "proved for intervals with ONE END AT J2000 and the other epoch within 5 centuries [spec level, C06_route_J2000: the composed rotation Rx(eps_end) . Recl . Rx(-eps_start) and Requ move every unit vector to places within a chord of 8.5e-7 = 4.9e-5 deg < 1e-4 deg; the nine matrix entries bounded by interval with Taylor models in the one free variable; Requ/Recl/eps are what the generated routines compute by C06_equ/ecl_rotation and C06_obliquity, the conversions being Rx(-/+eps) is property C05]; for general pairs of epochs only the first order is proved [ideal/spec, C06_route_first_order: both routes are the identity at zero interval and their angular velocities there -- Meeus' relations eps' = eta' cos Pi, n = p sin eps + eta' sin Pi cos eps, m = p cos eps - eta' sin Pi sin eps on the three separately coded polynomial sets of the regenerated model -- agree within 0.025 / 0.010 / 0.005 arcsec per century for |T| <= 5 centuries]; the general finite-interval 1e-4 deg bound (both epochs arbitrary within 5 centuries) is unproved (searched, measured maximum 3.35e-5 deg): it needs a certified bound of the angular-velocity mismatch over the two-dimensional (T, t) domain to about 0.005 arcsec/century in quantities of 5000 arcsec/century, and the crude |t| * sup bound (sup = 0.046 arcsec/century at T = -5, t = 10) would give 1.3e-4 deg, above the tolerance",
     "Newcomb within 0.005 deg of FK5 for 1800-2100": "proved [ideal, C06_newcomb_vs_fk5: both epochs in JDE 2378496.5 .. 2488071.5, every declination, chord <= 2.3e-5 = 0.00132 deg < 0.005 deg: sum of the three angle differences (1.6 + 1.7 + 1.4 arcsec, interval on small-coefficient polynomials; outer rotations are isometries, chord <= arc)]; binary64: searched",
-    "orbital elements to another equinox and back": "exact closed forms proved for every inclination, retrograde included, and for the zero-inclination branch [ideal, C06_orbital_closed_form, C06_orbital_zero_branch: pin every constant]; the round trip itself unproved (searched, inclinations 0..180 incl. tiny and retrograde, 1e-6 deg scaled by sin i)",
+    "orbital elements to another equinox and back": "exact closed forms proved for every inclination, retrograde included, and for the zero-inclination branch [ideal, C06_orbital_closed_form, C06_orbital_zero_branch: pin every constant]; the round trip itself unproved (searched).  Reading used by the oracle: the elements return as an ORBIT: inclination, orbit pole (carries sin i * node) and perihelion direction (carries node + argument for small i, node - argument near 180 deg) come back within 1e-9 deg + 3e-9 deg * t^2, t the interval in centuries; the t^2 term is the proved mismatch eta(T+t,-t) + eta(T,t) = -0.00001 t^2 arcsec of the ecliptical polynomials the routine uses (3e-7 deg at 10 centuries, below the text's 1e-6 deg for the ecliptical set); node and argument individually are ill-defined as i -> 0, 180 and are not compared; inclinations 0 .. 179.9999 deg (at exactly 180 deg the node is undefined and the general formulas divide rounding noise by sin(pi) ~ 1e-16: outside the domain), all intervals including zero and sub-day ones; the returned inclination must lie in 0..180.  Exactly i = 0 with a zero or backward interval fails (known finding orbital-zero-inclination-nonforward)",
     "p_motion_equa2eclip, motion_in_space": "exact closed forms proved [ideal, C06_p_motion_closed_form, C06_motion_in_space_closed_form]; searched: finite-difference consistency with the coordinate conversion, zero-time identity, radial motion keeps the direction, vector form r0 + t*v",
     "binary64 rounding of all the above": "unproved (searched with the property's tolerances; correspondence is bit-exact with traced libm)",
 }
@@ -144,6 +144,16 @@ def sep(u, v):
     return math.degrees(math.atan2(math.sqrt(sum(c * c for c in cx)), sum(a * b for a, b in zip(u, v))))
 
 
+def orbit_frame(i, arg, node):
+    """(perihelion direction, orbit pole) of the orbit with inclination i, argument of perihelion arg and
+    longitude of the node, degrees: columns 1 and 3 of Rz(node) Rx(i) Rz(arg)"""
+    i, w, n = math.radians(i), math.radians(arg), math.radians(node)
+    ci, si, cw, sw, cn, sn = math.cos(i), math.sin(i), math.cos(w), math.sin(w), math.cos(n), math.sin(n)
+    P = (cn * cw - sn * ci * sw, sn * cw + cn * ci * sw, si * sw)
+    N = (sn * si, -cn * si, ci)
+    return P, N
+
+
 def dang(x, y):
     return abs((float(x) - float(y) + 180.0) % 360.0 - 180.0)
 
@@ -182,10 +192,13 @@ def search(rng, tier, deep):
         w0, w1 = r_jd(rng, 20.0), r_jd(rng, 20.0)  # wider, for the exact-rotation clauses
         e0, e1, f0, f1 = Epoch(j0), Epoch(j1), Epoch(w0), Epoch(w1)
         stat["nontriv"] += 1
-        for name, fn, idtol, lo, la in (("equ", C.precession_equatorial, 1e-9, ra, dec),
-                                        ("newcomb", C.precession_newcomb, 1e-9, ra, dec),
-                                        ("ecl", C.precession_ecliptical, 1e-6, lon0, lat0)):
+        # idtol: the text's general figure 1e-9 deg for the exact clauses (identity, proper motion = displaced
+        # start); backtol: there and back, 1e-9 equatorial / 1e-6 ecliptical (the text's figures)
+        for name, fn, backtol, lo, la in (("equ", C.precession_equatorial, 1e-9, ra, dec),
+                                          ("newcomb", C.precession_newcomb, None, ra, dec),
+                                          ("ecl", C.precession_ecliptical, 1e-6, lon0, lat0)):
             fname = fn.__name__
+            idtol = 1e-9
             # zero interval = identity
             x = "%s(%s, %s, %s, %s)" % (fname, E(w0), E(w0), A(lo), A(la))
             r = call(name, fn, x, f0, f0, Angle(lo), Angle(la))
@@ -205,7 +218,7 @@ def search(rng, tier, deep):
                     report(name + "-angle-preserved", "angle between two stars changes by %.3g deg (> 1e-9): %s and %s" % (d, x1, x2),
                            [x1, x2], "[%s, %s]" % (x1, x2))
                 for rr, xx in ((r1, x1), (r2, x2)):
-                    if not (-360 < float(rr[0]) < 360 and -90.0000001 <= float(rr[1]) <= 90.0000001):
+                    if not (-360 < float(rr[0]) < 360 and -90.0 <= float(rr[1]) <= 90.0):
                         report(name + "-range", "%s returns %r" % (xx, rr), xx, xx)
             # proper motion: linear in elapsed time, i.e. the start is displaced by 100*mu*t (t in centuries)
             ma, md = rng.uniform(-10, 10) / 3600, rng.uniform(-10, 10) / 3600
@@ -234,17 +247,20 @@ def search(rng, tier, deep):
                     d1, d2 = sep(vec(*p1), vec(*p0)), sep(vec(*pd), vec(*p0))
                     if d1 > 1e-6 and not abs(d2 - 2 * d1) <= 0.02 * d1 + 1e-9:
                         report(name + "-proper-motion-doubling", "%s: displacement %.6g deg for mu, %.6g deg for 2 mu" % (xp, d1, d2), xp, xp)
-            # there and back (within 5 centuries of J2000)
-            if name != "newcomb":
-                xa = "%s(%s, %s, %s, %s)" % (fname, E(j0), E(j1), A(lo), A(la))
-                ra1 = call(name, fn, xa, e0, e1, Angle(lo), Angle(la))
+            # there and back: equatorial over the wide range (+-20 centuries: the reverse-trip polynomials are exact
+            # inverses, C06_equ_there_and_back), ecliptical within 5 centuries of J2000 (the text's range);
+            # Newcomb is not claimed by the text and is not an inverse pair (see CLAUSES)
+            if backtol is not None:
+                ja, jb, ea, eb = (w0, w1, f0, f1) if name == "equ" else (j0, j1, e0, e1)
+                xa = "%s(%s, %s, %s, %s)" % (fname, E(ja), E(jb), A(lo), A(la))
+                ra1 = call(name, fn, xa, ea, eb, Angle(lo), Angle(la))
                 if ra1 is not None:
-                    xb = "%s(%s, %s, *%s)" % (fname, E(j1), E(j0), xa)
-                    rb = call(name, fn, xb, e1, e0, ra1[0], ra1[1])
+                    xb = "%s(%s, %s, *%s)" % (fname, E(jb), E(ja), xa)
+                    rb = call(name, fn, xb, eb, ea, ra1[0], ra1[1])
                     if rb is not None:
                         d = sep(vec(*rb), vec(lo, la))
-                        if not d <= idtol:
-                            report(name + "-there-and-back", "%s ends %.3g deg from the start (%s, %s), tolerance %g" % (xb, d, fmt(lo), fmt(la), idtol), xb, xb)
+                        if not d <= backtol:
+                            report(name + "-there-and-back", "%s ends %.3g deg from the start (%s, %s), tolerance %g" % (xb, d, fmt(lo), fmt(la), backtol), xb, xb)
         # equatorial route vs ecliptical route through the mean obliquity of each epoch
         xr = ("ecliptical2equatorial(*precession_ecliptical(%s, %s, *equatorial2ecliptical(%s, %s, mean_obliquity(%s))), mean_obliquity(%s))"
               % (E(j0), E(j1), A(ra), A(lat0), E(j0), E(j1)))
@@ -270,23 +286,36 @@ def search(rng, tier, deep):
             d = sep(vec(*rn), vec(*rf))
             if not d <= 0.005:
                 report("newcomb-vs-fk5", "%s is %.3g deg (> 0.005) from %s" % (xn, d, xf), [xn, xf], "[%s, %s]" % (xn, xf))
-        # orbital elements to another equinox and back
+        # orbital elements to another equinox and back.  Reading: the elements return as an ORBIT -- the
+        # inclination, the orbit pole (which carries sin i * node) and the perihelion direction (which carries
+        # node + argument for small i, node - argument near 180, argument itself in between); node and argument
+        # individually are ill-defined as i -> 0 or 180.  Tolerance 1e-9 deg + 3e-9 deg * t^2 (t = interval in
+        # centuries): the second term is the proved mismatch of the ecliptical polynomials used by the routine,
+        # eta(T+t,-t) + eta(T,t) = -0.00001 t^2 arcsec = 2.78e-9 deg t^2 (3e-7 deg at 10 centuries, below the
+        # text's 1e-6 deg for the ecliptical set).  No interval is skipped (zero and sub-day intervals included).
         r = rng.random()
         i0 = (rng.uniform(1.0, 89.5) if r < 0.4 else rng.uniform(90.0, 179.0) if r < 0.65 else
               rng.uniform(0.001, 1.0) if r < 0.8 else rng.uniform(179.0, 179.999) if r < 0.87 else
               rng.choice([0.5, 1.0, 0.9999999, 1e-4, 1e-6, 90.0, 162.0, 179.9999, 0.0]))
         a0, o0 = rng.uniform(0, 360), rng.uniform(0, 360)
-        xo = "orbital_equinox2equinox(%s, %s, %s, %s, %s)" % (E(j0), E(j1), A(i0), A(a0), A(o0))
-        xo2 = "orbital_equinox2equinox(%s, %s, *%s)" % (E(j1), E(j0), xo)
-        o = call("orbital", C.orbital_equinox2equinox, xo, e0, e1, Angle(i0), Angle(a0), Angle(o0))
-        if o is not None and abs(j1 - j0) > 1.0:
-            ob = call("orbital", C.orbital_equinox2equinox, xo2, e1, e0, *o)
+        r = rng.random()
+        jo1 = j1 if r < 0.8 else (j0 if r < 0.85 else j0 + rng.uniform(-1.0, 1.0))
+        xo = "orbital_equinox2equinox(%s, %s, %s, %s, %s)" % (E(j0), E(jo1), A(i0), A(a0), A(o0))
+        xo2 = "orbital_equinox2equinox(%s, %s, *%s)" % (E(jo1), E(j0), xo)
+        o = call("orbital", C.orbital_equinox2equinox, xo, e0, Epoch(jo1), Angle(i0), Angle(a0), Angle(o0))
+        if o is not None:
+            ob = call("orbital", C.orbital_equinox2equinox, xo2, Epoch(jo1), e0, *o)
             if ob is not None:
-                si = math.sin(math.radians(i0))     # node and argument are ill-defined as i -> 0, 180: compare arcs
-                di, da, do = dang(ob[0], i0), dang(ob[1], a0) * si, dang(ob[2], o0) * si
-                if not (di <= 1e-6 and da <= 1e-6 and do <= 1e-6):
-                    key = "orbital-roundtrip"
-                    report(key, "%s returns (%s, %s, %s), started from (%s, %s, %s)" % (xo2, fmt(ob[0]), fmt(ob[1]), fmt(ob[2]), fmt(i0), fmt(a0), fmt(o0)), xo2, xo2)
+                tc = (jo1 - j0) / 36525.0
+                tol = 1e-9 + 3e-9 * tc * tc
+                P0, N0 = orbit_frame(i0, a0, o0)
+                P2, N2 = orbit_frame(float(ob[0]), float(ob[1]), float(ob[2]))
+                di, dn, dp = dang(ob[0], i0), sep(N2, N0), sep(P2, P0)
+                if not (di <= tol and dn <= tol and dp <= tol and 0.0 <= float(o[0]) <= 180.0):
+                    key = "orbital-zero-inclination-nonforward" if (i0 == 0.0 and jo1 <= j0) else "orbital-roundtrip"
+                    report(key, "%s returns (%s, %s, %s), started from (%s, %s, %s): inclination off by %.3g, orbit pole by %.3g, "
+                           "perihelion direction by %.3g deg (tolerance %.3g); intermediate inclination %s"
+                           % (xo2, fmt(ob[0]), fmt(ob[1]), fmt(ob[2]), fmt(i0), fmt(a0), fmt(o0), di, dn, dp, tol, fmt(o[0])), xo2, xo2)
         # proper-motion conversion equatorial -> ecliptical: consistent with the coordinate conversion
         ra2, dec2 = rng.uniform(0, 360), rng.uniform(-70, 70)
         eps = C.mean_obliquity(e0)
